@@ -4,6 +4,7 @@ import json, subprocess, os
 def run_queries(prop, queries, tier, seed):
     names = ",".join(q["name"] for q in queries)
     env = dict(os.environ); env["CARGO_NET_OFFLINE"] = "true"
+    if tier == "thorough": env.setdefault("VERIF_M_CROSSCHECK", "1")
     p = subprocess.run(["python3-vt", os.path.join(os.path.dirname(os.path.dirname(os.path.abspath(__file__))), "mir", "run_queries.py"), prop, tier, str(seed), names], stdout=subprocess.PIPE, stderr=subprocess.PIPE, text=True, env=env)
     try:
         out = json.loads(p.stdout.strip().splitlines()[-1])
